@@ -122,6 +122,13 @@ func (e *Eng) coerce(v *Val, to types.Type) *Val {
 
 func (e *Eng) nilCheck(st *State, base *Val, x ast.Expr, pos token.Pos) {
 	if e.ownPanicsChecked() && base.Sort == "Int" {
+		// `userdata v`: pointers INSIDE the value user code handed over in v (v.a, v.a.b, ...) are the user's to
+		// allocate - a listed assumption; v itself is checked like everything else
+		if root, path := selPath(x); root != nil && path != "" && e.con.UserData[root.Name] {
+			e.gap("ASSUME pointer %s inside user-provided value %s is not nil", e.src(x), root.Name)
+			e.assume(st, "(not (= "+base.T+" 0))")
+			return
+		}
 		// receivers / params may carry requires non-nil
 		e.oblige(st, "nopanic", "nil-deref "+e.src(x), "(not (= "+base.T+" 0))", pos)
 	}
